@@ -153,7 +153,7 @@ int main(int argc, char** argv) {
             }
         };
         for (int w = 0; w < n; w++) {
-            if (w % 2 == 1) materialFamily();
+            for (int k = 0; k < 3; k++) materialFamily();
             Position pos;
             if (rnd.nextInt(4) == 0) {
                 bool ok = false;
